@@ -115,3 +115,13 @@ Definition find_at (vm : list smatch) (offset : N) : bool := fst (binary_search 
 Definition find_in (vm : list smatch) (from to : N) : bool :=
   let idx := snd (binary_search (map abs_off vm) from) in
   match nnth_opt idx vm with Some x => abs_off x <=? to | None => false end.
+
+(* VarMatches::count_matches_in: from the insertion point of `from`, count while the absolute address is <= to *)
+Fixpoint count_while_le (to : N) (l : list smatch) : N :=
+  match l with
+  | [] => 0
+  | x :: l' => if to <? abs_off x then 0 else 1 + count_while_le to l'
+  end.
+Definition count_matches_in (vm : list smatch) (from to : N) : N :=
+  let idx := snd (binary_search (map abs_off vm) from) in
+  count_while_le to (ndrop idx vm).
